@@ -147,6 +147,12 @@ func runC08(c *Ctx) {
 		if len(g0.Missing) > 0 {
 			continue
 		}
+		if i%4 == 3 {
+			// sub-schemas that carry a fragment id ("#s1": an anchor inside their document): registering them must not
+			// stand in for, or hide, the document they live in
+			w = withIDs(c, w, "fragment")
+			c.Hit("ids:fragment")
+		}
 		nf := c.Intn(4)
 		fs, keys := pickFaults(c, w, g0, nf)
 		w2, refuse := applyFaults(w, fs, keys)
@@ -424,7 +430,9 @@ func runC09(c *Ctx) {
 				c.Fail(Failure{Kind: "oracle", Sig: "C09:unparsable-ref", What: fmt.Sprintf("$ref %q at %s does not parse", r.Ref, where), Case: cs})
 				continue
 			}
-			if r.Target.Doc == w.Root && !strings.HasPrefix(r.Ref, "#") {
+			// (the definitions section is left untouched in this mode - checked separately - so a $ref written there as
+			// "root.json#/..." stays as written: only what was visited is held to the fragment-only form)
+			if r.Target.Doc == w.Root && !strings.HasPrefix(r.Ref, "#") && !(len(r.Path) > 0 && r.Path[0] == "definitions") {
 				c.Fail(Failure{Kind: "oracle", Sig: "C09:ref-into-root-not-fragment-only", What: fmt.Sprintf("$ref %q at %s points into the root document but is not fragment-only", r.Ref, where), Case: cs})
 			}
 		}
